@@ -75,7 +75,7 @@ educe = {{ path = "{repo}"{features} }}
 [workspace]
 
 [lints.rust]
-unexpected_cfgs = {{ level = "allow", check-cfg = ['cfg(kani)'] }}
+unexpected_cfgs = {{ level = "allow", check-cfg = ['cfg(kani)', 'cfg(stubcheck)'] }}
 
 [profile.dev]
 debug = false
@@ -85,6 +85,12 @@ debug = false
 
 REPLAY_MAIN = '''fn main() {{
     let name = std::env::args().nth(1).expect("harness name");
+    #[cfg(stubcheck)]
+    if name == "--stubcheck" {{
+        let n = {crate}::support::dbg::stub_selfcheck();
+        println!("STUBCHECK-OK comparisons={{}}", n);
+        return;
+    }}
     let vals = std::env::var("VERIF_REPLAY_VALS").unwrap_or_default();
     {crate}::support::kani::load(&vals);
     let r = std::panic::catch_unwind(|| {crate}::dispatch(&name));
@@ -391,10 +397,10 @@ def evaluate(prop, tier, modules, kr, alive, d, target_dir, need_stubbing=False,
                 oc.inconclusive.append(f'{full}: no result reported by kani')
                 all_ok = False
                 continue
-            st = r['stats']
+            st = r['stats'] or {}
             oc.solver_s += float(st.get('runtime_solver_s', 0) or 0)
             oc.symex_s += float(st.get('runtime_symex_s', 0) or 0)
-            oc.cbmc_props += int(r['props'].get('total_properties', 0) or 0)
+            oc.cbmc_props += int((r['props'] or {}).get('total_properties', 0) or 0)
             if r['status'] == 'Success':
                 bad_cov = [c for c in h.covers if r['covers'].get(c) != 'Satisfied']
                 if bad_cov:
@@ -518,10 +524,24 @@ def finish(prop, oc):
     return 0
 
 
+def stubcheck(d):
+    """Validate the CharSearcher::next_match model natively with Kani's own toolchain."""
+    tc = open(os.path.expanduser('~/.kani/kani-0.68.0/rust-toolchain-version')).read().strip() if os.path.exists(os.path.expanduser('~/.kani/kani-0.68.0/rust-toolchain-version')) else 'nightly-2026-08-21'
+    rc, out = sh(['cargo', 'run', '--quiet', '--bin', 'replay', '--target-dir', os.path.join(WORK, 'target-stubcheck'), '--', '--stubcheck'],
+                 cwd=d, env={'RUSTUP_TOOLCHAIN': tc, 'RUSTFLAGS': '--cfg stubcheck -Awarnings'}, timeout=900)
+    m = re.search(r'STUBCHECK-OK comparisons=(\d+)', out)
+    if m:
+        return int(m.group(1)), ''
+    return 0, out[-2000:]
+
+
 def run_e1(prop, tier, seed, modules, rule, bounds, assumptions, need_stubbing=False, features=None,
-           lib_attrs='', harness_timeout=None, keep=False, extra=None, crate_tag=''):
+           lib_attrs='', harness_timeout=None, keep=False, extra=None, crate_tag='', validate_stub=False):
     """The whole E1 pipeline for one property. Returns exit code."""
     t0 = time.time()
+    flt = os.environ.get('VERIF_FILTER')
+    if flt:
+        modules = [m for m in modules if flt in m.cfgid]
     harness_timeout = harness_timeout or (120 if tier == 'quick' else 600)
     tag = f'{prop.lower()}{crate_tag}'
     d = os.path.join(WORK, f'{tag}_{tier}_{os.getpid()}')
@@ -538,6 +558,17 @@ def run_e1(prop, tier, seed, modules, rule, bounds, assumptions, need_stubbing=F
     if os.path.exists(rr):
         shutil.rmtree(rr)
     write_crate(d, modules, 'hc', features=features, lib_attrs=lib_attrs)
+    extra = dict(extra or {})
+    if validate_stub:
+        sd = d + '_stub'
+        shutil.rmtree(sd, ignore_errors=True)
+        write_crate(sd, [], 'hc', features=features, lib_attrs=lib_attrs)
+        n, err = stubcheck(sd)
+        shutil.rmtree(sd, ignore_errors=True)
+        if not n:
+            print('INCONCLUSIVE: the CharSearcher::next_match stub failed its native validation against the real function:\n' + err)
+            return 2
+        extra['stub_validation'] = dict(comparisons=n, method="native differential run under Kani's toolchain: model vs real <CharSearcher as Searcher>::next_match on every string of length <= 7 over {a, b, \\n}")
     kr, alive = run_kani(d, modules, target_dir, harness_timeout, need_stubbing, log=log)
     oc = evaluate(prop, tier, modules, kr, alive, d, target_dir, need_stubbing, features, lib_attrs)
     functions = sorted({f for m in modules for f in m.functions})
